@@ -283,6 +283,9 @@ func runBytes(c *core.Child, e *envs, m *model.Schema, si int) {
 			env = e.bare
 		}
 		c.Feature("bytes:" + class)
+		if i%97 == 0 {
+			c.Sample("bytes:"+class, map[string]interface{}{"request": trunc(text), "operationName": op, "variables": fmt.Sprint(vars)})
+		}
 		// reference verdict from the library's own stages (only used for the
 		// "no data when parsing or validation failed" clause)
 		var doc *ast.Document
@@ -397,6 +400,9 @@ func runASTs(c *core.Child, e *envs, m *model.Schema, si int) {
 			continue
 		}
 		c.Feature("ast:parsed")
+		if i%97 == 0 {
+			c.Sample("unvalidated-ast", map[string]interface{}{"document": trunc(text)})
+		}
 		c.Nontrivial(core.HashString("ast\x00" + text))
 		env := e.full
 		if r.Chance(30) {
